@@ -228,13 +228,23 @@ make_case.tier = 'quick'
 
 
 def run_one(engine, seed, acc, tier):
-    if engine in ('shipped', 'shipped_cli'):
-        from . import shipped_props
-        return shipped_props.run_one(ID, seed, acc, tier, level='cli' if engine == 'shipped_cli' else None)
-    make_case.tier = tier
-    case = make_case(engine, seed)
-    for f in evaluate(case, engine, acc):
-        acc.violation(base.violation(ID, f, case, seed, engine))
+    if _TERM[0] >= 2 and engine != 'tracker':
+        # this worker has already reported two solves that do not finish: the check has failed, and every further one
+        # would cost its full CPU allowance
+        acc.count('skipped-after-nontermination')
+        return
+    n0 = sum(1 for v in acc.violations if v.get('oracle') == 'C06.term')
+    try:
+        if engine in ('shipped', 'shipped_cli'):
+            from . import shipped_props
+            return shipped_props.run_one(ID, seed, acc, tier, level='cli' if engine == 'shipped_cli' else None)
+        make_case.tier = tier
+        case = make_case(engine, seed)
+        for f in evaluate(case, engine, acc):
+            acc.violation(base.violation(ID, f, case, seed, engine))
+    finally:
+        if engine != 'synth' and engine != 'small_enum' and engine != 'synth_twice':      # those count in eval_synth themselves
+            _TERM[0] += sum(1 for v in acc.violations if v.get('oracle') == 'C06.term') - n0
 
 
 def replay(rec):
